@@ -6,7 +6,9 @@ import (
 	"fmt"
 	"math/rand"
 	"runtime"
+	"runtime/debug"
 	"strconv"
+	"strings"
 
 	"go.pennock.tech/tabular"
 	"go.pennock.tech/tabular/texttable"
@@ -46,7 +48,7 @@ type world struct {
 	markKeys []interface{}
 	first    map[string]string // C14: first output per key
 	history  []M               // ops executed so far (for the reference rebuild of C10)
-	version  int               // bumped by every op that is not a render (C14 key)
+	version  int               // bumped by every op that may change a table (C14 key)
 	facets   map[string]bool
 
 	// conc mode (C16)
@@ -185,9 +187,7 @@ func runScenarioIn(w *world, out *bufio.Writer, id string, ops []M, facets map[s
 		func() {
 			defer func() {
 				if r := recover(); r != nil {
-					if dp, ok := r.(driverPanic); ok {
-						fatal(fmt.Errorf("scenario %s op %d (%v): driver error: %v", id, i+1, op["op"], dp.v))
-					}
+					mustBeLibrary(r, fmt.Sprintf("scenario %s op %d (%v)", id, i+1, op["op"]))
 					// A panic escaping a library call: logged as the op's status.
 					w.lastRes = M{"panic": fmt.Sprint(r)}
 				}
@@ -198,7 +198,11 @@ func runScenarioIn(w *world, out *bufio.Writer, id string, ops []M, facets map[s
 			if w.jitter != nil && w.jitter.Intn(3) == 0 {
 				runtime.Gosched()
 			}
-			if o := opStr(op, "op"); o != "render" && o != "renderall" && o != "faultsweep" {
+			switch opStr(op, "op") {
+			case "render", "renderall", "faultsweep", "wrap", "decor", "htmlopts", "regdecor", "snapshot", "nop", "autonew", "autostyles", "measure":
+				// (these leave every table as it is: renders before and after them are renders of the same
+				// table, and must agree -- the wrapper's own settings are part of the comparison key)
+			default:
 				w.version++
 			}
 			w.exec(op)
@@ -221,9 +225,7 @@ func runScenarioIn(w *world, out *bufio.Writer, id string, ops []M, facets map[s
 			func() {
 				defer func() {
 					if r := recover(); r != nil {
-						if dp, ok := r.(driverPanic); ok {
-							fatal(fmt.Errorf("scenario %s op %d: driver error in observation: %v", id, i+1, dp.v))
-						}
+						mustBeLibrary(r, fmt.Sprintf("scenario %s op %d (observation)", id, i+1))
 						obs["obspanic"] = fmt.Sprint(r)
 					}
 				}()
@@ -234,6 +236,43 @@ func runScenarioIn(w *world, out *bufio.Writer, id string, ops []M, facets map[s
 			line["obs"] = obs
 		}
 		writeLine(out, line)
+	}
+}
+
+// libraryPanic is called while recovering: it reports whether the panic was raised inside the library (or in
+// the standard library on the library's behalf). A panic raised by this driver's own code -- an index into its
+// own tables, a malformed scenario -- is a failure of the machinery, never an observation about the library.
+func libraryPanic(r interface{}) bool {
+	if _, ok := r.(driverPanic); ok {
+		return false
+	}
+	st := string(debug.Stack())
+	i := strings.Index(st, "\npanic(")
+	if i < 0 {
+		return true
+	}
+	lines := strings.Split(st[i+1:], "\n")
+	for _, ln := range lines[1:] {
+		if strings.HasPrefix(ln, "\t") {
+			continue
+		}
+		if strings.HasPrefix(ln, "go.pennock.tech/tabular") {
+			return true
+		}
+		if strings.HasPrefix(ln, "main.") {
+			return false
+		}
+	}
+	return true
+}
+
+// mustBeLibrary aborts the driver (exit 2) for a recovered panic of its own.
+func mustBeLibrary(r interface{}, where string) {
+	if !libraryPanic(r) {
+		if dp, ok := r.(driverPanic); ok {
+			r = dp.v
+		}
+		fatal(fmt.Errorf("%s: driver error: %v\n%s", where, r, debug.Stack()))
 	}
 }
 
